@@ -289,8 +289,9 @@ func msgOneValue(c *Ctx, fl msgFlavour, id string, depth int) {
 	all := msgFlavoursAll[fl.md]
 	inputs := [][]byte{det}
 	inputs = append(inputs, msgRewrite(c, fl.md, det, 3))
+	inputs = append(inputs, msgRewriteOpts(c, fl.md, det, 3, true))
 	if c.Intn(2) == 0 {
-		inputs = append(inputs, msgRewrite(c, fl.md, det, 3))
+		inputs = append(inputs, msgRewriteOpts(c, fl.md, det, 3, true))
 	}
 	// concatenation of two encodings = merge
 	m2 := fl.new()
